@@ -4014,7 +4014,12 @@ impl<'a> ZonedDifference<'a> {
         // below in this case. For example, in a fold, the order of the clock
         // times can be the reverse of the order of the instants, which would
         // send us looking for an intermediate datetime on the wrong side.)
-        if dt1.date() == dt2.date() {
+        //
+        // The same is true when the order of the civil days is the reverse
+        // of the order of the instants, which happens in a fold that
+        // straddles midnight. (For example, `America/Goose_Bay` used to
+        // switch from `00:01-03` back to `23:01-04` of the previous day.)
+        if t::sign(dt2.date(), dt1.date()) != sign {
             return zdt1.timestamp().until((Unit::Hour, zdt2.timestamp()));
         }
 
